@@ -641,6 +641,19 @@ impl<'tcx> Cx<'tcx> {
             }
         } else if let (TyKind::Ref(_, inner, _), true) = (cty.kind(), !c.has_non_region_param()) {
             // promoted `&<int>` (assert_eq! operands): read the pointee from the const allocation
+            if let TyKind::Adt(iadt, _) = inner.kind() {
+                if iadt.is_enum() || iadt.is_struct() {
+                    if let Ok(ConstValue::Scalar(rustc_middle::mir::interpret::Scalar::Ptr(ptr, _))) = c.eval(tcx, env, span) {
+                        let (prov, off) = ptr.prov_and_relative_offset();
+                        if let Some(rustc_middle::mir::interpret::GlobalAlloc::Memory(_)) = tcx.try_get_global_alloc(prov.alloc_id()) {
+                            let cv = ConstValue::Indirect { alloc_id: prov.alloc_id(), offset: off };
+                            let mut d = J::obj();
+                            self.describe_const_value(cv, *inner, &mut d);
+                            o.set("deref_const", d);
+                        }
+                    }
+                }
+            }
             if inner.is_integral() || inner.is_bool() {
                 if let Ok(ConstValue::Scalar(rustc_middle::mir::interpret::Scalar::Ptr(ptr, _))) = c.eval(tcx, env, span) {
                     let (prov, off) = ptr.prov_and_relative_offset();
